@@ -232,7 +232,7 @@ Definition ex_code_dict : pyv := generic_code_dict strG "1.2.0" (generic_convert
 Example generic_code_roundtrip_example :
   let dumps := fun _ : pyv => "code" in let loads := fun _ : string => Some (normalise ex_code_dict) in
   loads (dumps ex_code_dict) = Some (normalise ex_code_dict) /\
-  m_value_type strG ex_model = "PREDICTION" /\
+  generic_convert strG ex_model = ex_model /\
   generic_roundtrip strG dumps loads "1.2.0" ex_model = Some (strip strG ex_model) /\
   model_eq strG (strip strG ex_model) ex_model = true.
 Proof. cbn zeta. repeat split; vm_compute; reflexivity. Qed.
